@@ -305,6 +305,19 @@ class Repo:
                 except RecursionError:
                     continue
                 if node is not fi.node:
+                    # arguments that were literals at the call (helper(None), helper(True)) decide tests inside the spliced body
+                    try:
+                        from .pe import Specialiser, GiveUp
+                        sp = Specialiser(self, fi)
+                        body, _ = sp.block(list(node.body), {}, None)
+                        if sp.changed:
+                            import copy as _c
+                            node = _c.copy(node)
+                            node.body = body or [ast.Pass()]
+                            node = _c.deepcopy(node)
+                            ast.fix_missing_locations(node)
+                    except Exception:
+                        pass
                     # drop the nested functions indexed from the old node, re-index from the new one
                     for q in [q for q in self.funcs if q.startswith(fi.qual + ".")]:
                         self.funcs[q] = [x for x in self.funcs[q] if x.parent is not fi and not _descends(x, fi)]
@@ -526,6 +539,35 @@ def _split_tuple_assignments(tree):
                 if not any(dotted(x) == t for x in ast.walk(n.value.right)):
                     return ast.copy_location(ast.AugAssign(target=n.targets[0], op=n.value.op, value=n.value.right), n)
             return n
+        def _tail_continue(self, stmts):
+            """a `continue` in tail position of a loop body does nothing: dropped (recursively through trailing if / try arms)"""
+            if not stmts:
+                return stmts
+            last = stmts[-1]
+            if isinstance(last, ast.Continue):
+                return stmts[:-1] or [ast.copy_location(ast.Pass(), last)]
+            if isinstance(last, ast.If):
+                last.body = self._tail_continue(last.body)
+                last.orelse = self._tail_continue(last.orelse)
+            elif isinstance(last, ast.Try) and not last.finalbody:
+                if last.orelse:
+                    last.orelse = self._tail_continue(last.orelse)
+                else:
+                    last.body = self._tail_continue(last.body)
+                for h in last.handlers:
+                    h.body = self._tail_continue(h.body)
+            return stmts
+
+        def visit_For(self, n):
+            n = self.generic_visit(n)
+            n.body = self._tail_continue(n.body)
+            return n
+
+        def visit_While(self, n):
+            n = self.generic_visit(n)
+            n.body = self._tail_continue(n.body)
+            return n
+
         def visit_Return(self, n):
             n = self.generic_visit(n)
             if isinstance(n.value, ast.IfExp) and os.environ.get("VERIF_KEEP_IFEXP") != "1":
